@@ -40,6 +40,8 @@ def run(ctx):
     from sa.engine import SubCtx
     from rules import c10
     c10.dup_check(SubCtx(ctx, {'R1': 'R8'}))
+    from rules import atoms
+    atoms.all_blocks_enumerated(ctx, 'R3')
 
 
 def _run(ctx):
